@@ -451,6 +451,12 @@ def readRequest (inp : Bytes) : R Parsed :=
                            host, te := [], cl := 0, hdr := [], body := none, trailer := none }
                 { t with hdr := del t.hdr hostKey } r2
 
+/-- `strings.Cut(resp.Status, " ")`: the status code as written. -/
+def codeOf (status : Bytes) : Bytes :=
+  match cut 32 status with
+  | some (c, _) => c
+  | none => status
+
 /-- `http.ReadResponse(r, req)` with `req.Method = reqMethod`, followed by `io.ReadAll(res.Body)`. -/
 def readResponse (reqMethod : Bytes) (inp : Bytes) : R Parsed :=
   match readLine inp with
@@ -460,9 +466,7 @@ def readResponse (reqMethod : Bytes) (inp : Bytes) : R Parsed :=
     | none => .malformed
     | some (proto, status0) =>
       let status := status0.dropWhile (· == 32)
-      let codeB := match cut 32 status with
-        | some (c, _) => c
-        | none => status
+      let codeB := codeOf status
       if codeB.length != 3 then .malformed else
       if !codeB.all isDigit then .outOfModel else
       match parseHTTPVersion proto with
